@@ -279,7 +279,12 @@ class Eval:
             vv = H.strip(pat["lit"])
             if vv.get("lk") == "bool":
                 return self.as_bool(self.ev(scrut, loc), scrut) == bool(vv["v"]), {}
-            raise _Unsupported("literal pattern")
+            a, b = sorted([self.text(scrut, loc), canon_text(vv)])
+            return self.atom("%s == %s" % (a, b)), {}
+        if k == "ppath" and pat["res"].get("r") in ("const", "assoc_const"):
+            # `match x { CONST => .. }` is the comparison x == CONST
+            a, b = sorted([self.text(scrut, loc), canon_text({"k": "path", "res": pat["res"]})])
+            return self.atom("%s == %s" % (a, b)), {}
         if k == "tuple":
             sc = H.strip(scrut)
             if sc.get("k") == "tup" and len(sc.get("es", [])) == len(pat["pats"]):
